@@ -1,0 +1,150 @@
+//go:build verif
+
+package freelist
+
+import (
+	"slices"
+	"sync/atomic"
+
+	"go.etcd.io/bbolt/internal/common"
+)
+
+// Verification hooks (build tag `verif`). The hash-map backend hands out
+// "whichever element map iteration produced first"; under the tag that choice
+// is made by VerifPick among the same candidates (default: the lowest), so a
+// simulated run is repeatable. Every candidate is one the unhooked code could
+// have produced.
+
+// VerifPick, if set, chooses an index in [0,n) among n sorted candidates.
+var VerifPick atomic.Pointer[func(n int) int]
+
+func verifChoose(n int) int {
+	if n <= 1 {
+		return 0
+	}
+	if p := VerifPick.Load(); p != nil {
+		if i := (*p)(n); i >= 0 && i < n {
+			return i
+		}
+	}
+	return 0
+}
+
+func verifPickPid(bm pidSet, pid common.Pgid) common.Pgid {
+	ids := make([]common.Pgid, 0, len(bm))
+	for id := range bm {
+		ids = append(ids, id)
+	}
+	slices.Sort(ids)
+	return ids[verifChoose(len(ids))]
+}
+
+func verifPickSpan(freemaps map[uint64]pidSet, n uint64, size uint64, bm pidSet) (uint64, pidSet) {
+	sizes := make([]uint64, 0, len(freemaps))
+	for s, set := range freemaps {
+		if s >= n && len(set) > 0 {
+			sizes = append(sizes, s)
+		}
+	}
+	if len(sizes) == 0 {
+		return size, bm
+	}
+	slices.Sort(sizes)
+	s := sizes[verifChoose(len(sizes))]
+	return s, freemaps[s]
+}
+
+// VerifEvent describes one exported freelist call made by the database.
+type VerifEvent struct {
+	Call     string
+	Txid     common.Txid
+	N        int
+	Pgid     common.Pgid
+	Overflow uint32
+	Ids      []common.Pgid
+	Ret      uint64
+}
+
+// VerifObserved wraps a freelist and reports every exported call after it
+// returned. It changes no result.
+type VerifObserved struct {
+	Interface
+	After func(*VerifEvent)
+}
+
+// VerifObserve wraps f.
+func VerifObserve(f Interface, after func(*VerifEvent)) Interface {
+	return &VerifObserved{Interface: f, After: after}
+}
+
+// VerifSnapshot returns the free ids and the pending ids per transaction.
+func VerifSnapshot(f Interface) (free []common.Pgid, pending map[common.Txid][]common.Pgid) {
+	if o, ok := f.(*VerifObserved); ok {
+		f = o.Interface
+	}
+	free = slices.Clone([]common.Pgid(f.freePageIds()))
+	pending = map[common.Txid][]common.Pgid{}
+	for tid, txp := range f.pendingPageIds() {
+		pending[tid] = slices.Clone(txp.ids)
+	}
+	return free, pending
+}
+
+func (o *VerifObserved) Init(ids common.Pgids) {
+	cp := slices.Clone([]common.Pgid(ids))
+	o.Interface.Init(ids)
+	o.After(&VerifEvent{Call: "Init", Ids: cp})
+}
+
+func (o *VerifObserved) Read(p *common.Page) {
+	o.Interface.Read(p)
+	o.After(&VerifEvent{Call: "Read", Pgid: p.Id()})
+}
+
+func (o *VerifObserved) Write(p *common.Page) {
+	o.Interface.Write(p)
+	o.After(&VerifEvent{Call: "Write", Pgid: p.Id()})
+}
+
+func (o *VerifObserved) Allocate(txid common.Txid, n int) common.Pgid {
+	r := o.Interface.Allocate(txid, n)
+	o.After(&VerifEvent{Call: "Allocate", Txid: txid, N: n, Ret: uint64(r)})
+	return r
+}
+
+func (o *VerifObserved) AddReadonlyTXID(txid common.Txid) {
+	o.Interface.AddReadonlyTXID(txid)
+	o.After(&VerifEvent{Call: "AddReadonlyTXID", Txid: txid})
+}
+
+func (o *VerifObserved) RemoveReadonlyTXID(txid common.Txid) {
+	o.Interface.RemoveReadonlyTXID(txid)
+	o.After(&VerifEvent{Call: "RemoveReadonlyTXID", Txid: txid})
+}
+
+func (o *VerifObserved) ReleasePendingPages() {
+	o.Interface.ReleasePendingPages()
+	o.After(&VerifEvent{Call: "ReleasePendingPages"})
+}
+
+func (o *VerifObserved) Free(txid common.Txid, p *common.Page) {
+	id, ov := p.Id(), p.Overflow()
+	o.Interface.Free(txid, p)
+	o.After(&VerifEvent{Call: "Free", Txid: txid, Pgid: id, Overflow: ov})
+}
+
+func (o *VerifObserved) Rollback(txid common.Txid) {
+	o.Interface.Rollback(txid)
+	o.After(&VerifEvent{Call: "Rollback", Txid: txid})
+}
+
+func (o *VerifObserved) Reload(p *common.Page) {
+	o.Interface.Reload(p)
+	o.After(&VerifEvent{Call: "Reload", Pgid: p.Id()})
+}
+
+func (o *VerifObserved) NoSyncReload(ids common.Pgids) {
+	cp := slices.Clone([]common.Pgid(ids))
+	o.Interface.NoSyncReload(ids)
+	o.After(&VerifEvent{Call: "NoSyncReload", Ids: cp})
+}
